@@ -3,12 +3,12 @@
 package redis
 
 import (
-	"runtime/debug"
 	"bytes"
 	"encoding/json"
 	"fmt"
 	"io"
 	"runtime"
+	"runtime/debug"
 	"strings"
 	"time"
 
